@@ -193,6 +193,12 @@ def closed_forms(ctx: Ctx) -> Dict[str, int]:
         raise MachineryError("BSAlgebra: too few Greek obligations")
     grid = Grid(tier)
     seen = bs_common.evaluate(ctx, grid, alg.records, "C08")
+    if tier == "quick" or True:
+        # the same obligations in another physical regime (short-dated, near the money, low-priced): same index lattice
+        micro = Grid("quick_micro")
+        if micro.shape == grid.shape:
+            bs_common.evaluate(ctx, micro, [r for r in alg.records if r["ob"]["kind"] == "greek_is_derivative"], "C08")
+            ctx.sections["greek_obligations_micro_regime"] = micro.sizes()
     # the modules' Greeks (closed form or automatic) are the same derivatives
     from checks.c07 import classes
     from lib.bsgrid import PATH_DEPENDENT, PUT_OFFERED
@@ -250,6 +256,7 @@ def check(ctx: Ctx) -> None:
     from checks import bs_common
     bs_common.strike_spelling(ctx, "greeks")
     bs_common.inplace_between_calls(ctx)
+    bs_common.broadcasting(ctx, "greeks")
     from lib.bsgrid import Grid
     bs_common.batch_consistency(ctx, Grid("quick"), greeks=("delta", "gamma", "vega", "theta"))
     bound_modules_after_strike_change(ctx)
